@@ -86,7 +86,7 @@ class cm(object):
         LOG.append(('enter', self.tag))
         return self.tag
     def __exit__(self, *exc):
-        LOG.append(('exit', self.tag, exc[0].__name__ if exc[0] else None))
+        LOG.append(('exit', self.tag, ('NameError' if issubclass(exc[0], NameError) else exc[0].__name__) if exc[0] else None))
         return False
 class E1(Exception):
     pass
@@ -196,7 +196,7 @@ def _stmts(n, depth, inloop, infin, rich):
                 else:
                     for e in _blocks(n2, depth - 1, inloop, infin, rich):
                         out.append(('if', b, e))
-        for b in _blocks(n - 1, depth - 1, True, False, rich):
+        for b in _blocks(n - 1, depth - 1, True, infin, rich):
             out.append(('while', b))
             out.append(('for', b))
         for b in _blocks(n - 1, depth - 1, inloop, infin, rich):
@@ -581,7 +581,7 @@ class _Gen(object):
             self.emit(ind, 'while %s < %d and %s:' % (wv, r.randrange(1, 4), self.bexpr(1)))
             self.emit(ind + '    ', '%s += 1' % wv)
             self.loopdepth += 1
-            self.block(ind + '    ', depth - 1, True, False)
+            self.block(ind + '    ', depth - 1, True, infin)
             self.loopdepth -= 1
             return
         if c < 0.70:
@@ -601,7 +601,7 @@ class _Gen(object):
                 F.add('for_iterator')
                 self.emit(ind, 'for %s in iter((a, b, c)):' % r.choice(['i', v]))
             self.loopdepth += 1
-            self.block(ind + '    ', depth - 1, True, False)
+            self.block(ind + '    ', depth - 1, True, infin)
             self.loopdepth -= 1
             return
         if c < 0.76 and inloop:
